@@ -598,6 +598,23 @@ func untaggedIdent(t reflect.Type) int {
 	return 0
 }
 
+// OrderDependent reports whether decoding t relies on the order of the members of a generated SEQUENCE
+// (looking through pointers, slices and "Value"/"List" wrappers, which all hand the "set" parameter down).
+func (g *Gen) OrderDependent(t reflect.Type) bool {
+	for {
+		switch {
+		case g.NoSet[t]:
+			return true
+		case t.Kind() == reflect.Ptr || (t.Kind() == reflect.Slice && t != asn.OctetStringType):
+			t = t.Elem()
+		case Classify(t) == KWrap:
+			t = t.Field(0).Type
+		default:
+			return false
+		}
+	}
+}
+
 func (g *Gen) randStruct(depth int, kind string) reflect.Type {
 	n := 1 + g.R.Intn(4)
 	var fs []reflect.StructField
@@ -674,7 +691,7 @@ func (g *Gen) randStruct(depth int, kind string) reflect.Type {
 				ft = reflect.PtrTo(ft)
 			}
 		}
-		if k == KSeq && g.R.Intn(3) == 0 && !untagged && !g.NoSet[ft] && !(ft.Kind() == reflect.Ptr && g.NoSet[ft.Elem()]) {
+		if k == KSeq && g.R.Intn(3) == 0 && !untagged && !g.OrderDependent(ft) {
 			add("set")
 		}
 		if g.Explicit && kind != "choice" && k != KChoice && !untagged && g.R.Intn(3) == 0 {
